@@ -17,13 +17,19 @@ def run(tier):
     cases, meta = [], []
     wd = common.workdir()
 
-    def add(c, start, prog, tag, second=None, use_file=False):
+    def add(c, start, prog, tag, second=None, use_file=False, prior_fail=None):
         lines = [p[0] for p in prog]
         hexes = [p[1] for p in prog]
         lens = [len(h) // 2 for h in hexes]
         total = sum(lens)
         total2 = sum(len(p[1]) // 2 for p in second) if second else 0
-        cmds = ["new 0 ext %d H 0xcc" % (start + total + total2 + 64), "setoff 0 %d" % start]
+        ptot = sum(len(p[1]) // 2 for p in prior_fail[1]) if prior_fail else 0
+        cmds = ["new 0 ext %d H 0xcc" % (start + total + total2 + ptot + 64)]
+        if prior_fail:
+            # an earlier counting call that FAILS after some of its instructions crossed boundaries: its partial count must not
+            # reach the next call ("the count is that of the current call only")
+            cmds.append("cnt 0 %d %s" % (prior_fail[0], common.hx("\n".join([p[0] for p in prior_fail[1]] + ["bogus rax, 1"]))))
+        cmds.append("setoff 0 %d" % start)
         if use_file:
             path = os.path.join(wd, "c14-%d.asm" % len(cases))
             with open(path, "w") as f:
@@ -36,7 +42,7 @@ def run(tier):
             l2 = [p[0] for p in second]
             cmds += ["cnt 0 %d %s" % (c, common.hx("\n".join(l2))), "getoff 0"]
         cases.append(cmds)
-        meta.append((c, start, lines, hexes, lens, tag, second, use_file))
+        meta.append((c, start, lines, hexes, lens, tag, second, use_file, 1 if prior_fail else 0))
 
     clc = ("clc", "f8")
     for c in cs:
@@ -54,10 +60,11 @@ def run(tier):
             c = rnd.choice([tot, tot + 1, max(2, tot - 1)])
         start = rnd.choice([0, 1, 2, 3, 7, 19] + ([abs(c) - 1, abs(c), abs(c) + 1] if 2 <= abs(c) < 200 else []))
         second = [rnd.choice(allc) for _ in range(rnd.randrange(1, 20))] if k % 3 == 0 else None
-        add(c, max(0, start), prog, "random", second, use_file=(k % 7 == 0))
+        prior = (rnd.choice([2, 3, 5, 8]), [rnd.choice(allc) for _ in range(rnd.randrange(2, 12))]) if k % 4 == 1 else None
+        add(c, max(0, start), prog, "random", second, use_file=(k % 7 == 0), prior_fail=prior)
     res = common.run_cases(binary, cases, tag="c14")
     stats = {"grid_cases": 0, "random_cases": 0, "nonzero_counts": 0, "max_count": 0, "file_cases": 0, "second_calls": 0, "c_below_2": 0}
-    for (c, start, lines, hexes, lens, tag, second, use_file), cmds, r in zip(meta, cases, res):
+    for (c, start, lines, hexes, lens, tag, second, use_file, shift), cmds, r in zip(meta, cases, res):
         v.count()
         stats[tag + "_cases"] += 1
         case = {"key": "%s c=%d start=%d n=%d file=%s tail=%s" % (tag, c, start, len(lines), use_file, lines[-2:]), "fam": "count_" + tag, "c": c, "start": start}
@@ -65,6 +72,9 @@ def run(tier):
             v.violation(case, r["crash"]["sig"], r["crash"]["stderr"][-800:])
             continue
         recs = r["records"]
+        if shift:
+            stats["after_failed_counting_call"] = stats.get("after_failed_counting_call", 0) + 1
+            recs = recs[:1] + recs[1 + shift:]
         a = recs[2].split()
         off = int(recs[3].split()[1])
         dump = recs[4].split()[1]
@@ -99,7 +109,7 @@ def run(tier):
         if v.cov["evaluations"] % 1200 == 1:
             v.sample({"chunk": c, "start": start, "n_lines": len(lines), "count": expc, "tail": lines[-2:]})
     v.cov["rule"] = ("the C13 grid (every chunk size x position x encoded length) with counting instead of fitting, plus seeded programs x chunk sizes incl. 0, 1, -1, len, len+1, 10^6 x start offsets x a second counting "
-                     "call on the same instance x the file variant; oracle: bytes == plain encoding, count == number of instructions with (pos mod c)+len > c at their final positions, count of the current call only, c<2 -> 0")
+                     "call on the same instance x the file variant x (one case in four) an earlier counting call that failed after some boundary crossings; oracle: bytes == plain encoding, count == number of instructions with (pos mod c)+len > c at their final positions, count of the current call only, c<2 -> 0")
     v.cov["exhaustive"] = True
     v.cov.update(stats)
     return v.finish(None, stats["nonzero_counts"] > 100, "too few non-zero counts observed: %r" % stats)
